@@ -90,9 +90,10 @@ PROPS["C05"] = {
 
 PROPS["C12"] = {
     "title": "Builder calls never panic, failed calls change nothing, structure is enforced",
-    "units": {"quick": ["builder_core"], "thorough": ["builder_core"]},
+    "units": {"quick": ["builder_core", "builder_gen"], "thorough": ["builder_core", "builder_gen"]},
+    "only_items": {"builder_gen": [r"Builder::(?!type_)\w+$"]},
     "level": "proof",
-    "technique": "Verus contracts on the extracted hand-written Builder methods over an abstract module view, with the selection invariant required and re-established by every method",
+    "technique": "Verus contracts on the extracted hand-written Builder methods and the 24 generated fixed-operand terminator methods over an abstract module view, with the selection invariant required and re-established by every method",
     "design_ref": "DESIGN.md §4 C12+C13",
     "explanation": "Every hand-written Builder method in C12's alphabet is extracted verbatim and proved, for all builder states satisfying "
                    "the selection invariant, to re-establish it, to fail exactly under the stated condition, to leave the whole module view "
@@ -101,9 +102,10 @@ PROPS["C12"] = {
 }
 PROPS["C13"] = {
     "title": "Builder id discipline: fresh ids, exact bound, deduplicated implicit types",
-    "units": {"quick": ["builder_core"], "thorough": ["builder_core"]},
+    "units": {"quick": ["builder_core", "builder_gen"], "thorough": ["builder_core", "builder_gen"]},
+    "only_items": {"builder_gen": [r"Builder::type_\w+$"]},
     "level": "proof",
-    "technique": "Verus contracts on id(), new(), new_from_module(), module(), dedup_insert_type() (loop invariant) and the three-way type requests",
+    "technique": "Verus contracts on id(), new(), new_from_module(), module(), dedup_insert_type() (loop invariant) and the three-way type requests: hand-written type_pointer and the 55 generated type_* / type_*_id methods with fixed or optional operands",
     "design_ref": "DESIGN.md §4 C12+C13",
     "explanation": "id() returns the old counter and advances it by one, every other method leaves it unchanged or advances it by the ids it hands out; "
                    "module() writes the counter into the bound; dedup_insert_type returns the id of the first identical declaration (loop invariant over the real loop); "
